@@ -26,6 +26,13 @@ with the dimensions that decide which blocks are on the tape (quick: d = 3 / 2; 
             dimensions: fastload, python, cmio, out, content, screen, fmt, banks (default six, none),
             end (49152), input
 
+and for the *bank loader address family* (128K-loader): the 128K-io base tape with the bank loader
+placed at every address of one 256-byte page (LOADER_PAGE: every low byte 0..255, so every position
+of the 38 bytes of loader code and of the bank table that follows them relative to a page boundary),
+both ways the man page offers: --loader ADDR (CLEAR fixed below the page) and by default at
+CLEAR+1 (CLEAR = ADDR-1).  quick: these 512 tapes; thorough: each also with one further deviation
+(banks none / two banks, pzx, START, SZX input).
+
 Alternatives are symbolic ('end+2' = address of the first byte after the program + 2,
 'org+1' ...) and are resolved against the other dimensions, so that e.g. "STACK lies one
 byte inside the data" means that for every length/ORG it is combined with.
@@ -176,6 +183,22 @@ def alts_io(machine):
     return a
 
 
+# Bank loader address family.  'L:ADDR' = --loader ADDR with --clear LOADER_CLEAR; 'C:ADDR' = --clear ADDR-1 and
+# no --loader option (the loader goes to CLEAR+1 = ADDR).  The page lies between the lowest usable CLEAR address
+# and the program at 32768, and the last loader (ADDR = page + 255, 39 + banks bytes) ends below the program.
+LOADER_PAGE = 0x7E00
+LOADER_CLEAR = 32000
+DEF128LD = dict(DEF128IO, family='128K-loader', ldaddr='none')
+BASES['128K-loader'] = DEF128LD
+
+
+def alts_loader(tier):
+    a = dict(ldaddr=['{}:{}'.format(how, LOADER_PAGE + lo) for how in 'LC' for lo in range(256)])
+    if tier == 'thorough':
+        a.update(banks=[',', '1,3'], fmt=['pzx'], start=['last'], input=['szx'])
+    return a
+
+
 def depth(tier):
     """(48K, 128K) deviation bounds; the same for the tape families and the I/O families."""
     return (3, 2) if tier == 'quick' else (4, 3)
@@ -190,6 +213,8 @@ def configs(tier):
     for k, cfg in core.deviations(DEF48IO, alts_io('48'), d48):
         yield k, cfg
     for k, cfg in core.deviations(DEF128IO, alts_io('128'), d128):
+        yield k, cfg
+    for k, cfg in core.deviations(DEF128LD, alts_loader(tier), d128 - 1):
         yield k, cfg
 
 
@@ -266,6 +291,10 @@ def _resolve128(cfg):
     lowest = 23977 if cfg['screen'] else 23957          # man page, section 128K TAPES
     names = {'begin': B, 'lowest': lowest}
     CLEAR = _rel(cfg['clear'], names)
+    ldaddr = cfg.get('ldaddr', 'none')
+    if ldaddr != 'none':
+        # bank loader address family: the address decides CLEAR (the 'clear' and 'loader' dimensions are not used)
+        CLEAR = LOADER_CLEAR if ldaddr[0] == 'L' else int(ldaddr[2:]) - 1
     if CLEAR < lowest:
         return None, 'CLEAR below the lowest usable address on a 128K Spectrum'
     if CLEAR >= B:
@@ -273,7 +302,10 @@ def _resolve128(cfg):
     banks = None if cfg['banks'] == 'default' else [int(b) for b in cfg['banks'].split(',') if b]
     nbanks = 6 if banks is None else len(banks)
     llen = 39 + nbanks
-    if cfg['loader'] == 'default':
+    if ldaddr != 'none':
+        LOADER = int(ldaddr[2:]) if ldaddr[0] == 'L' else None
+        eff_loader = int(ldaddr[2:])
+    elif cfg['loader'] == 'default':
         LOADER = None
         eff_loader = CLEAR + 1
     else:
@@ -496,6 +528,8 @@ def tags_for(cfg, plan, bad):
     else:
         t['banks'] = 'default' if plan['banks'] is None else ','.join(str(b) for b in plan['banks'])
         t['o7ffd'] = plan['o7ffd']
+        t['loader_addr'] = plan['eff_loader']
+        t['loader_option'] = plan['LOADER'] is not None
     return t
 
 
@@ -564,6 +598,13 @@ def _shard(shard, nshards, tier, seed):
             stats.counters['banks_{}'.format(6 if plan['banks'] is None else len(plan['banks']))] += 1
             if plan['LOADER'] is not None:
                 stats.counters['explicit_loader'] += 1
+            if family(cfg) == '128K-loader' and k:
+                stats.counters['loader_address_' + ('option' if plan['LOADER'] is not None else 'clear+1')] += 1
+            if (plan['eff_loader'] & 255) + 38 > 255:
+                # the bank table that follows the 38 bytes of loader code starts in the next 256-byte page
+                stats.counters['bank_table_in_next_page_' + ('option' if plan['LOADER'] is not None else 'clear+1')] += 1
+            if (plan['eff_loader'] & 255) + 38 <= 255 < (plan['eff_loader'] & 255) + plan['loader_len'] - 1:
+                stats.counters['bank_table_crosses_page'] += 1
         if status == 'bad':
             stats.violation(cfg_id(cfg), {'cfg': cfg, 'seed': seed}, '; '.join(d for _, d in bad[:4]) +
                             ' [bin2tap {} ; tap2sna {}]'.format(' '.join(info['bin2tap'][:-2]), ' '.join(info.get('tap2sna', [])[:-2])),
@@ -589,12 +630,16 @@ def run(tier, seed):
              'and content dimensions, screen, tap/pzx, --banks {{3, default six, none}}, --end {{BEGIN+15,49152}}, binary/SZX input.  Content '
              '"runs" fills the binary (from its first byte), every 128K bank and the loading screen with an 87-byte pattern tiled: runs of 1..6 '
              'bytes 0xED and of 1..6 bytes 0x00, each followed by one address-tag byte, then 0xED followed by 1..6 zeros and a tag byte (the '
-             'alphabet of the Z80 format\'s run-length coding: escape byte from 2 repetitions, other bytes from 5).  One evaluation = '
+             'alphabet of the Z80 format\'s run-length coding: escape byte from 2 repetitions, other bytes from 5).  Bank loader address family: the same 128K base tape with the bank '
+             'loader at every address {}+lo, lo = 0..255 (every position of the loader code and its bank table relative to a 256-byte page '
+             'boundary), placed with --loader ADDR (--clear {}) and by default at CLEAR+1 (--clear ADDR-1): 512 tapes{}.  One evaluation = '
              'bin2tap.main + tap2sna.main + oracle; non-trivial = any non-default configuration; content seed {} only rotates the byte-tag '
-             'formula'.format(d48, ',41000' if tier == 'thorough' else '', d128, d48, d128, seed),
+             'formula'.format(d48, ',41000' if tier == 'thorough' else '', d128, d48, d128, LOADER_PAGE, LOADER_CLEAR,
+                              ', each also with one further deviation over --banks {3, none, 1+3}, tap/pzx, START {BEGIN,last}, binary/SZX input'
+                              if tier == 'thorough' else '', seed),
         exhaustive=True,
         bound='configuration deviations d <= {} from the default 48K tape and d <= {} from the default 128K tape, in the tape families and '
-              'in the I/O families (complete)'.format(d48, d128),
+              'in the I/O families; bank loader address family: all 2 x 256 addresses with d <= {} further deviations (complete)'.format(d48, d128, d128 - 2),
         assumptions=[
             'option combinations the bin2tap man page excludes are not generated: STACK < 16398, CLEAR < 23952 (48K) / 23957 / 23977 with a '
             'screen (128K), CLEAR at or above the program, empty --begin/--end ranges, programs that do not fit below 65536',
@@ -612,7 +657,9 @@ def run(tier, seed):
                          'prefilled_stack_bytes_inside_data', 'prefilled_stack_bytes_begin_below_data', 'snapshot_input',
                          'banks_0', 'banks_1', 'banks_2', 'banks_6', 'explicit_loader', 'excluded_by_documentation',
                          'family_48K-io', 'family_128K-io', 'sim_fast-load=0', 'sim_python=1', 'sim_cmio=1', 'out_szx', 'out_z80',
-                         'content_runs', 'z80_out_of_ed_runs', 'c_simulator_loads_byte_by_byte_from_16384'],
+                         'content_runs', 'z80_out_of_ed_runs', 'c_simulator_loads_byte_by_byte_from_16384',
+                         'family_128K-loader', 'loader_address_option', 'loader_address_clear+1', 'bank_table_in_next_page_option',
+                         'bank_table_in_next_page_clear+1'],
     )
     return stats, meta
 
